@@ -287,7 +287,7 @@ def analyse_call(call, v, counters):
 def run_pipeline(case):
     from ethosu.vela.high_level_command_stream import NpuStripe
     from ethosu.vela.operation import NpuBlockType, Op
-    from vv import cfggen, compile as vc, netgen, tflw
+    from vv import campaign, cfggen, compile as vc, netgen, tflw
 
     rng = np.random.default_rng(np.random.SeedSequence([1010, case["seed"]]))
     viol = {}
@@ -295,9 +295,12 @@ def run_pipeline(case):
                 "pipeline_compilations": 0, "unmodelled_stripes": 0, "weight_boxes": 0}
     keys = []
     log = vc.StreamLog().install()
-    for t in range(case["n"]):
+    single = case.get("model_z") and case.get("wcfg")  # replay of one witness: the recorded model and configuration, not the regenerated batch
+    for t in range(1 if single else case["n"]):
         fam = ["stripe-stress", "stripe-stress", "exact-chain", "buffer-stress", "exact-dag", "approx-tail", "exact-chain-big", "alias-stress", "stripe-resize", "stripe-resize", "stripe-resize", "stripe-resize", "mixed-width"][int(rng.integers(0, 13))]
-        net = netgen.make(fam, case["seed"] * 50 + t)
+        if single:
+            fam = case.get("wfamily", "?")
+        net = netgen.make(fam, case["seed"] * 50 + t) if not single else None
         cfg = cfggen.rand_cfg(rng)
         if rng.integers(0, 2):
             cfg["optimise"] = "Size"
@@ -307,10 +310,14 @@ def run_pipeline(case):
             # the stripe heights a cascade settles on depend on how much memory is left: sweep the pressure continuously
             cfg["cache"] = int(np.exp(rng.uniform(np.log(4000), np.log(160000))))
             cfg["optimise"] = "Performance" if rng.integers(0, 3) else "Size"
+        if single:
+            cfg, model = case["wcfg"], campaign.unpack_model(case["model_z"])
+        else:
+            model = tflw.build(net)
         d = os.path.join(case["sdir"], "p%d_%d" % (case["seed"], t))
         os.makedirs(d, exist_ok=True)
         mp = os.path.join(d, "n.tflite")
-        open(mp, "wb").write(tflw.build(net))
+        open(mp, "wb").write(model)
         del log.calls[:]
         vc.run_inproc(mp, cfg, os.path.join(d, "o"))
         import ethosu.vela.tensor as tmod
@@ -319,7 +326,9 @@ def run_pipeline(case):
         counters["pipeline_compilations"] += 1
         wit = {"family": fam, "nseed": case["seed"] * 50 + t, "cfg": cfg}
 
-        def v(mech, msg):
+        def v(mech, msg, wit=wit, model=model, fam=fam):
+            if "model_z" not in wit:
+                wit["model_z"] = campaign.pack_model(model)
             viol.setdefault(mech, {"mech": mech, "msg": "%s: %s" % (fam, msg), "witness": wit})
 
         for call in log.calls:
